@@ -87,9 +87,14 @@ def same_val(got, want):
     return norm(got) == want
 
 
-def make_deferred(spec, log):
+def add_cb(d, cb, log):
+    """Attach one more callback / errback of the generated vocabulary."""
+    make_deferred({"callbacks": [cb], "state": "nothing"}, log, d)
+
+
+def make_deferred(spec, log, d=None):
     from twisted.internet import defer
-    d = defer.Deferred()
+    d = defer.Deferred() if d is None else d
     for cb in spec["callbacks"]:
         if cb == "pass":
             d.addCallback(lambda v: v)
@@ -184,7 +189,8 @@ def s_case(draw):
     return {"deferred": draw(s_deferred()), "inner_domain": dom,
             "inner": draw(ML.tree(dom, draw(st.sampled_from([1, 0, 2])))),
             "fail_inner": draw(FAIL_INNER),
-            "after": draw(st.sampled_from(["add_callback", "fire", "none", "add_callback"]))}
+            "after": draw(st.sampled_from(["add_callback", "fire", "none", "add_callback", "errback"])),
+            "then": draw(st.one_of(st.none(), CB))}       # a callback attached between two matches of the same Deferred
 
 
 def _value_in_domain(v, dom):
@@ -287,6 +293,15 @@ def run_case(spec):
                     d.addCallback(seen.append)
                     if not (len(seen) == 1 and same_val(seen[0], state[1])):
                         vs.append(V("intact", name + "-value", "after %s().match a new callback saw %r, original result %r" % (name, seen, state[1])))
+                elif ds["state"] == "unfired" and spec["after"] == "errback":
+                    # matched while unfired, then it fails: the failure still belongs to whoever handles it later
+                    errs = []
+                    d.addCallbacks(seen.append, errs.append)
+                    d.errback(ML.EXC_CLASSES["ValueError"]("late failure"))
+                    after_model = model_chain(dict(ds, state="failure", exc="ValueError"))
+                    if after_model[0] == "failure" and not (len(errs) == 1 and not seen and errs[0].check(ML.EXC_CLASSES[after_model[1]])):
+                        vs.append(V("intact", name + "-unfired-then-failed", "match-then-errback: a later errback saw %r (callbacks saw %r), expected a %s failure" % (errs, seen, after_model[1])))
+                    d.addErrback(lambda f: None)
                 elif ds["state"] == "unfired" and spec["after"] in ("fire", "add_callback"):
                     d.addCallback(seen.append)
                     d.callback(live_val(spec["deferred"]["value"]))
@@ -304,10 +319,24 @@ def run_case(spec):
                 vs.append(V("intact", "has_no_result-consumed-failure", "after has_no_result() probed a failed Deferred, failed(Always()) no longer matches it"))
         elif kind == "value":
             again = succeeded(tm.Always()).match(d) is None and succeeded(tm.Always()).match(d) is None
+            if spec.get("then"):
+                # the chain grows between two matches: the matchers look at the Deferred as it is now
+                add_cb(d, spec["then"], [])
+                state2 = model_chain(dict(ds, callbacks=list(ds["callbacks"]) + [spec["then"]]))
+                got2 = {"has_no_result": has_no_result().match(d) is None}
+                got2["succeeded"] = succeeded(tm.Always()).match(d) is None if state2[0] != "failure" else False
+                got2["failed"] = failed(tm.Always()).match(d) is None
+                want2 = {"has_no_result": state2[0] == "none", "succeeded": state2[0] == "value", "failed": state2[0] == "failure"}
+                if got2 != want2:
+                    vs.append(V("classify", "second-match-after-%s" % spec["then"], "matched, then a %r callback was added (state now %r), then matched again: %r, expected %r" % (
+                        spec["then"], state2, got2, want2)))
+                state_now = state2
+            else:
+                state_now = state
             seen = []
             d.addCallback(seen.append)
-            if not again or not (len(seen) == 1 and same_val(seen[0], state[1])):
-                vs.append(V("intact", "probe-then-succeeded", "after has_no_result() and succeeded() twice: matches=%r, later callback saw %r, original %r" % (again, seen, state[1])))
+            if state_now[0] == "value" and (not again or not (len(seen) == 1 and same_val(seen[0], state_now[1]))):
+                vs.append(V("intact", "probe-then-succeeded", "after has_no_result() and succeeded() twice: matches=%r, later callback saw %r, original %r" % (again, seen, state_now[1])))
         elif ds["state"] == "unfired":
             seen, errs = [], []
             d.addCallbacks(seen.append, errs.append)
@@ -362,6 +391,7 @@ def run_program_pair(spec):
         from vp.programs import FalsyError
         exc = {"fail": lambda: case.failureException("MARK-" + marker), "error": lambda: RuntimeError("MARK-" + marker),
                "notfired": lambda: DeferredNotFired("MARK-" + marker), "error_falsy": lambda: FalsyError("MARK-" + marker),
+               "kbd": lambda: KeyboardInterrupt("MARK-" + marker), "sysexit": lambda: SystemExit("MARK-" + marker),
                "skip": lambda: case.skipException("MARK-" + marker),
                "xfail": lambda: testtools.testcase._ExpectedFailure((RuntimeError, RuntimeError("MARK-" + marker), None))}[kind]()
         if deferred_mode:
@@ -394,7 +424,14 @@ def run_program_pair(spec):
                 super().tearDown()
                 return r
         res = Ext()
-        T("test_it").run(res)
+        left = None
+        try:
+            T("test_it").run(res)
+        except BaseException as e:
+            if isinstance(e, (MemoryError, RecursionError)):
+                raise
+            left = type(e).__name__
+        log.append(("run() raised", left))
         outs = [(e[0], sorted(m for m in ("MARK-setUp", "MARK-test", "MARK-tearDown", "MARK-cleanup")
                                if any(m.encode() in d[2] for d in (e[2].get("details") or {}).values() if isinstance(d[2], bytes))))
                 for e in res.events if e[0].startswith("add")]
@@ -414,6 +451,13 @@ def _enum_programs():
     kinds = [["ok"], ["fail"], ["error"], ["skip"], ["value"], ["xfail"], ["notfired"], ["error_falsy"]]
     for a, b, c, d in itertools.product(kinds, repeat=4):
         yield {"setUp": a, "test": b, "tearDown": c, "cleanup": d}
+    # an interrupt (not an Exception) in one stage, every other stage ranging over the ordinary behaviours
+    few = [["ok"], ["fail"], ["error"], ["skip"]]
+    for nonexc in (["kbd"], ["sysexit"]):
+        for pos in range(4):
+            for rest in itertools.product(few, repeat=3):
+                stages = list(rest[:pos]) + [nonexc] + list(rest[pos:])
+                yield dict(zip(("setUp", "test", "tearDown", "cleanup"), stages))
 
 
 def subchecks(tier):
